@@ -5,11 +5,12 @@
     [t_rank] (smaller = better).  Part 2 lifts first/last alone (no rank values, and explicit
     rank values for any number of teams), the two-team order, the draw direction and (for
     games without rank values) the order of identical teams to [rate_core] (tau inflation,
-    sort, update, unsort, sigma clamp).  [C05_exchange], [C05_identical_ordered] with
-    explicit rank values and [C05_identical_partial] are compute-level only: the exchange
-    swaps the [t_rank] of the two teams in place (the list order is kept; for PL/BTF/TMF
-    [compute] does not depend on it, which is C04's subject); they are not lifted through the
-    sort of [rate_core].  Nothing is [_partial]: every clause of the property text has a
+    sort, update, unsort, sigma clamp).  [C05_exchange] and [C05_identical_ordered] are stated
+    at the compute level (the exchange swaps the [t_rank] of the two teams in place; the list
+    order is kept; for PL/BTF/TMF [compute] does not depend on it, which is C04's subject) and
+    lifted through the sort of [rate_core] with explicit rank values at the end of the file
+    ([C05_rate_exchange], [C05_rate_identical_ordered_keys]); [C05_identical_partial] is
+    compute-level only.  Nothing is [_partial]: every clause of the property text has a
     theorem, the TM middle inequality (loss <= draw <= win) and the TM draw bound hold on both
     branches of V~.  Reading of "weakly so under partial pairing": DESIGN.md §9-I1
     ([C05_identical_partial]: a game of identical teams listed in finishing order).
@@ -30,9 +31,9 @@
     obviously satisfiable hypotheses; Examples instantiating them on concrete games are given.
     Hypotheses of the form [compute ... = [x; y]] / [nth_error (compute ...) i = Some res] are
     always satisfiable ([compute] returns one team per team: [C05_two_team_games_ex]). *)
-From Coq Require Import List Arith ZArith Reals Lra Lia.
+From Coq Require Import List Arith ZArith Bool Reals Lra Lia.
 From OSV Require Import Num Order Gauss Core RInst.
-From OSV.Lemmas Require C05L C05RateL.
+From OSV.Lemmas Require C05L C05RateL C05LiftL.
 From OSV Require GaussInst GaussFull.
 Import ListNotations.
 Open Scope R_scope.
@@ -787,3 +788,130 @@ Theorem C05_rate_draw_direction_TMP_inst : forall (P : params R) (tau : R) (limi
   /\ Forall2 (fun p0 x => r_mu p0 + r_sigma (inflate (H := RNum GaussInst.PhiK GaussInst.PhiinvK) tau p0) * r_sigma (inflate (H := RNum GaussInst.PhiK GaussInst.PhiinvK) tau p0) / sb * - (sb / c * (p_kappa P / c)) <= r_mu x) tb bd.
 Proof. intros P tau limit ta tb kd kd' ad bd; exact (C05_rate_draw_direction_TMP GaussInst.PhiK GaussInst.PhiinvK P tau limit ta tb kd kd' ad bd GaussFull.GaussFacts_inst). Qed.
 Print Assumptions C05_rate_draw_direction_TMP_inst.
+
+(** ** Exchanging places and identical teams through [rate_core], with explicit rank values.
+
+    The two compute-level statements [C05_exchange] and [C05_identical_ordered] lifted through
+    tau inflation, the stable sort by rank value, the update, the unsort and the optional sigma
+    clamp.  A game is given by its teams and the list [ks] of their rank values (smaller =
+    better placed); "no ties" = no two POSITIONS carry equal rank values ([key_leb] both ways).
+    For Plackett-Luce and the full-pairing models the result of the call is [compute] on the
+    team ratings of the caller's game in input order with the dense ranks (C01: both are the
+    closed form), so the compute-level theorems apply position by position; exchanging two
+    rank values exchanges the two dense ranks and leaves the others unchanged.
+    The premise [GaussFacts] is required for Thurstone-Mosteller only. *)
+
+(** Team [i] exchanges places with the better-placed team [j]: [ks'] is [ks] with the entries
+    at positions [i] and [j] exchanged.  No member of team [i] ends with a lower mu. *)
+Theorem C05_rate_exchange : forall (Phi Phiinv : R -> R) (k : kind) (P : params R) (tau : R) (limit : bool)
+    (teams : list (list (rating R))) (ks ks' : list key) (i j : nat) (ki kj : key) (res res' : list (rating R)),
+  (k = TMF -> GaussFacts Phi Phiinv) -> (k = PL \/ k = BTF \/ k = TMF) ->
+  (2 <= length teams)%nat -> 0 < p_beta P -> 0 < p_kappa P ->
+  Forall (fun t => t <> [] /\ Forall (fun p => 0 < r_sigma p * r_sigma p + tau * tau) t) teams ->
+  length ks = length teams -> Forall (fun k : key => (0 <= snd k)%Z) ks ->
+  (forall a b ka kb, a <> b -> nth_error ks a = Some ka -> nth_error ks b = Some kb ->
+     key_leb ka kb && key_leb kb ka = false) ->
+  nth_error ks i = Some ki -> nth_error ks j = Some kj -> key_ltb kj ki = true ->
+  length ks' = length ks -> nth_error ks' i = Some kj -> nth_error ks' j = Some ki ->
+  (forall q, q <> i -> q <> j -> nth_error ks' q = nth_error ks q) ->
+  nth_error (rate_core (H := RNum Phi Phiinv) k P tau limit teams (Some ks)) i = Some res ->
+  nth_error (rate_core (H := RNum Phi Phiinv) k P tau limit teams (Some ks')) i = Some res' ->
+  Forall2 (fun p p' => r_mu p <= r_mu p') res res'.
+Proof. intros; eapply (C05LiftL.rate_exchange Phi Phiinv k P tau limit teams ks ks' i j ki kj); eauto; intros [E|E]; subst k; intuition congruence. Qed.
+Print Assumptions C05_rate_exchange.
+
+(** Two teams with identical skills at positions [a] (better placed) and [b]: member by member
+    the same mu and the same sigma (the identity of the players -- id, name -- may differ, as it
+    does in any real game).  Every member of the better-placed team ends with mu >= the
+    corresponding member of the other. *)
+Theorem C05_rate_identical_ordered_keys : forall (Phi Phiinv : R -> R) (k : kind) (P : params R) (tau : R) (limit : bool)
+    (teams : list (list (rating R))) (ks : list key) (a b : nat) (ka kb : key) (ta tb resa resb : list (rating R)),
+  (k = TMF -> GaussFacts Phi Phiinv) -> (k = PL \/ k = BTF \/ k = TMF) ->
+  (2 <= length teams)%nat -> 0 < p_beta P -> 0 < p_kappa P ->
+  Forall (fun t => t <> [] /\ Forall (fun p => 0 < r_sigma p * r_sigma p + tau * tau) t) teams ->
+  length ks = length teams -> Forall (fun k : key => (0 <= snd k)%Z) ks ->
+  (forall a b ka kb, a <> b -> nth_error ks a = Some ka -> nth_error ks b = Some kb ->
+     key_leb ka kb && key_leb kb ka = false) ->
+  nth_error ks a = Some ka -> nth_error ks b = Some kb -> key_ltb ka kb = true ->
+  nth_error teams a = Some ta -> nth_error teams b = Some tb ->
+  map r_mu ta = map r_mu tb -> map r_sigma ta = map r_sigma tb ->
+  nth_error (rate_core (H := RNum Phi Phiinv) k P tau limit teams (Some ks)) a = Some resa ->
+  nth_error (rate_core (H := RNum Phi Phiinv) k P tau limit teams (Some ks)) b = Some resb ->
+  Forall2 (fun pb pa => r_mu pb <= r_mu pa) resb resa.
+Proof. intros; eapply (C05LiftL.rate_identical_keys_gen Phi Phiinv k P tau limit teams ks a b ka kb ta tb); eauto; intros [E|E]; subst k; intuition congruence. Qed.
+Print Assumptions C05_rate_identical_ordered_keys.
+
+(** the same for the concrete normal distribution function: no premise about the normal law *)
+Theorem C05_rate_exchange_inst : forall (k : kind) (P : params R) (tau : R) (limit : bool)
+    (teams : list (list (rating R))) (ks ks' : list key) (i j : nat) (ki kj : key) (res res' : list (rating R)),
+  (k = PL \/ k = BTF \/ k = TMF) ->
+  (2 <= length teams)%nat -> 0 < p_beta P -> 0 < p_kappa P ->
+  Forall (fun t => t <> [] /\ Forall (fun p => 0 < r_sigma p * r_sigma p + tau * tau) t) teams ->
+  length ks = length teams -> Forall (fun k : key => (0 <= snd k)%Z) ks ->
+  (forall a b ka kb, a <> b -> nth_error ks a = Some ka -> nth_error ks b = Some kb ->
+     key_leb ka kb && key_leb kb ka = false) ->
+  nth_error ks i = Some ki -> nth_error ks j = Some kj -> key_ltb kj ki = true ->
+  length ks' = length ks -> nth_error ks' i = Some kj -> nth_error ks' j = Some ki ->
+  (forall q, q <> i -> q <> j -> nth_error ks' q = nth_error ks q) ->
+  nth_error (rate_core (H := RNum GaussInst.PhiK GaussInst.PhiinvK) k P tau limit teams (Some ks)) i = Some res ->
+  nth_error (rate_core (H := RNum GaussInst.PhiK GaussInst.PhiinvK) k P tau limit teams (Some ks')) i = Some res' ->
+  Forall2 (fun p p' => r_mu p <= r_mu p') res res'.
+Proof. intros k P tau limit teams ks ks' i j ki kj res res'; exact (C05_rate_exchange GaussInst.PhiK GaussInst.PhiinvK k P tau limit teams ks ks' i j ki kj res res' (fun _ => GaussFull.GaussFacts_inst)). Qed.
+Print Assumptions C05_rate_exchange_inst.
+
+Theorem C05_rate_identical_ordered_keys_inst : forall (k : kind) (P : params R) (tau : R) (limit : bool)
+    (teams : list (list (rating R))) (ks : list key) (a b : nat) (ka kb : key) (ta tb resa resb : list (rating R)),
+  (k = PL \/ k = BTF \/ k = TMF) ->
+  (2 <= length teams)%nat -> 0 < p_beta P -> 0 < p_kappa P ->
+  Forall (fun t => t <> [] /\ Forall (fun p => 0 < r_sigma p * r_sigma p + tau * tau) t) teams ->
+  length ks = length teams -> Forall (fun k : key => (0 <= snd k)%Z) ks ->
+  (forall a b ka kb, a <> b -> nth_error ks a = Some ka -> nth_error ks b = Some kb ->
+     key_leb ka kb && key_leb kb ka = false) ->
+  nth_error ks a = Some ka -> nth_error ks b = Some kb -> key_ltb ka kb = true ->
+  nth_error teams a = Some ta -> nth_error teams b = Some tb ->
+  map r_mu ta = map r_mu tb -> map r_sigma ta = map r_sigma tb ->
+  nth_error (rate_core (H := RNum GaussInst.PhiK GaussInst.PhiinvK) k P tau limit teams (Some ks)) a = Some resa ->
+  nth_error (rate_core (H := RNum GaussInst.PhiK GaussInst.PhiinvK) k P tau limit teams (Some ks)) b = Some resb ->
+  Forall2 (fun pb pa => r_mu pb <= r_mu pa) resb resa.
+Proof. intros k P tau limit teams ks a b ka kb ta tb resa resb; exact (C05_rate_identical_ordered_keys GaussInst.PhiK GaussInst.PhiinvK k P tau limit teams ks a b ka kb ta tb resa resb (fun _ => GaussFull.GaussFacts_inst)). Qed.
+Print Assumptions C05_rate_identical_ordered_keys_inst.
+
+(** non-vacuity: a concrete three-team game with rank values 2, 1, 7/2 (no ties); team 0
+    (second place) exchanges places with team 1 (first place): the rank values become 1, 2, 7/2 *)
+Example C05_rate_exchange_ex : forall (Phi Phiinv : R -> R) (res res' : list (rating R)),
+  let P := mkParams (25/6) (1/10000) (gamma_default (H := RNum Phi Phiinv)) in
+  let teams := [[mkRating 25 8 0%Z NmNone; mkRating 20 3 1%Z NmNone]; [mkRating 30 7 2%Z NmNone]; [mkRating 27 5 3%Z NmNone]] in
+  nth_error (rate_core (H := RNum Phi Phiinv) PL P (1/12) true teams (Some [(2, 0); (1, 0); (7, 1)]%Z)) 0 = Some res ->
+  nth_error (rate_core (H := RNum Phi Phiinv) PL P (1/12) true teams (Some [(1, 0); (2, 0); (7, 1)]%Z)) 0 = Some res' ->
+  Forall2 (fun p p' => r_mu p <= r_mu p') res res'.
+Proof.
+  intros Phi Phiinv res res' P teams E E'.
+  apply (C05_rate_exchange Phi Phiinv PL P (1/12) true teams [(2, 0); (1, 0); (7, 1)]%Z [(1, 0); (2, 0); (7, 1)]%Z
+           0 1 (2, 0)%Z (1, 0)%Z res res'); cbn; try lra; try lia; try reflexivity; auto; try discriminate.
+  - repeat constructor; cbn; try discriminate; lra.
+  - repeat constructor; cbn; lia.
+  - intros [|[|[|a]]] [|[|[|b]]] ka kb Hab Ea Eb; cbn in Ea, Eb; try congruence;
+      try (destruct a; discriminate); try (destruct b; discriminate);
+      injection Ea as <-; injection Eb as <-; reflexivity.
+  - intros [|[|q]] H0 H1; try congruence; reflexivity.
+Qed.
+
+(** non-vacuity: two one-player teams of identical skill (different players) at positions 2
+    (rank value 1, first place) and 0 (rank value 7/2, last place) *)
+Example C05_rate_identical_ordered_keys_ex : forall (Phi Phiinv : R -> R) (resa resb : list (rating R)),
+  let P := mkParams (25/6) (1/10000) (gamma_default (H := RNum Phi Phiinv)) in
+  let teams := [[mkRating 25 8 0%Z NmNone]; [mkRating 30 7 1%Z NmNone]; [mkRating 25 8 2%Z (NmStr true 5%Z)]] in
+  nth_error (rate_core (H := RNum Phi Phiinv) BTF P (1/12) false teams (Some [(7, 1); (2, 0); (1, 0)]%Z)) 2 = Some resa ->
+  nth_error (rate_core (H := RNum Phi Phiinv) BTF P (1/12) false teams (Some [(7, 1); (2, 0); (1, 0)]%Z)) 0 = Some resb ->
+  Forall2 (fun pb pa => r_mu pb <= r_mu pa) resb resa.
+Proof.
+  intros Phi Phiinv resa resb P teams E E'.
+  apply (C05_rate_identical_ordered_keys Phi Phiinv BTF P (1/12) false teams [(7, 1); (2, 0); (1, 0)]%Z
+           2 0 (1, 0)%Z (7, 1)%Z [mkRating 25 8 2%Z (NmStr true 5%Z)] [mkRating 25 8 0%Z NmNone] resa resb);
+    cbn; try lra; try lia; try reflexivity; auto; try discriminate.
+  - repeat constructor; cbn; try discriminate; lra.
+  - repeat constructor; cbn; lia.
+  - intros [|[|[|a]]] [|[|[|b]]] ka kb Hab Ea Eb; cbn in Ea, Eb; try congruence;
+      try (destruct a; discriminate); try (destruct b; discriminate);
+      injection Ea as <-; injection Eb as <-; reflexivity.
+Qed.
